@@ -290,7 +290,7 @@ Definition is_entry_op (d : path) (o : pop) : bool :=
   | CreateDir q => path_eqb q d || child_of q d
   | CreateFile q => child_of q d
   | PRemoveFile q => child_of q d
-  | PRemoveDir q => child_of q d
+  | PRemoveDir q => path_eqb q d || child_of q d
   | PRename f t => child_of f d || child_of t d
   | _ => false
   end.
@@ -404,10 +404,11 @@ Definition open_file (s : fs) (p : path) (r w a t c n : bool) : fs * (hnd + N) :
     let created :=
       if ex then Some s
       else if c || n then
-        if parent_exists s p then Some (push s (CreateFile p)) else None
+        if dir_exists s p then None
+        else if parent_exists s p then Some (push s (CreateFile p)) else None
       else None in
     match created with
-    | None => (s, inr ENOENT)
+    | None => (s, inr (if (c || n) && dir_exists s p then EISDIR else ENOENT))
     | Some s1 =>
         let s2 := if t && w then push s1 (PSetLen p 0) else s1 in
         (s2, inl {| hpath := p; hr := r; hw := w || a; ha := a; hpos := 0 |})
